@@ -921,6 +921,7 @@ func (P) Generate(g *core.Gen) {
 			}
 		}
 	}
+	x.sequences()
 	// random garbage into every decoder
 	for i := 0; i < g.N(300, 6000); i++ {
 		kind := kinds[r.Intn(len(kinds))]
@@ -936,4 +937,108 @@ func (P) Generate(g *core.Gen) {
 		e := encs(kind)[r.Intn(len(encs(kind)))]
 		x.dec("garbage", kind, pvers[r.Intn(len(pvers))], e, p, true)
 	}
+}
+
+// sequences: stateful accessor histories on btcutil.Block / btcutil.Tx. One line = constructor, value, and a
+// random sequence of accessor calls; every call is observed. The cached accessors must answer as the pure
+// specification does, whatever was called before.
+func (x *gen) sequences() {
+	r := x.r
+	smallTx := func(wit bool) *wire.MsgTx {
+		t := &wire.MsgTx{Version: int32(x.u32()), LockTime: x.u32()}
+		nIn := 1 + r.Intn(3)
+		for i := 0; i < nIn; i++ {
+			in := &wire.TxIn{PreviousOutPoint: wire.OutPoint{Hash: x.hash(), Index: x.u32()}, SignatureScript: r.Bytes(r.Intn(40)), Sequence: x.u32()}
+			if wit && (i == 0 || r.Bool()) {
+				k := 1 + r.Intn(3)
+				for j := 0; j < k; j++ {
+					in.Witness = append(in.Witness, r.Bytes(r.Intn(40)))
+				}
+				if len(in.Witness[0]) == 0 {
+					in.Witness[0] = []byte{1}
+				}
+			}
+			t.TxIn = append(t.TxIn, in)
+		}
+		for i := r.Intn(3); i > 0; i-- {
+			t.TxOut = append(t.TxOut, &wire.TxOut{Value: int64(x.u64()), PkScript: r.Bytes(r.Intn(40))})
+		}
+		return t
+	}
+	blkOps := func(n int) string {
+		var ops []string
+		for k := 3 + r.Intn(9); k > 0; k-- {
+			switch r.Intn(11) {
+			case 0, 1:
+				ops = append(ops, "B")
+			case 2, 3:
+				ops = append(ops, "N")
+			case 4:
+				ops = append(ops, "H")
+			case 5:
+				ops = append(ops, "T")
+			case 6:
+				ops = append(ops, "L")
+			case 7:
+				ops = append(ops, fmt.Sprintf("t%d", r.Intn(n+2)))
+			case 8:
+				ops = append(ops, fmt.Sprintf("h%d", r.Intn(n+2)))
+			case 9:
+				ops = append(ops, "G")
+			case 10:
+				ops = append(ops, fmt.Sprintf("S%d", int32(x.u32())))
+			}
+		}
+		return joinOps(ops)
+	}
+	ctors := []string{"new", "bytes", "reader", "blockandbytes"}
+	for i := 0; i < x.g.N(160, 1500); i++ {
+		b := &wire.MsgBlock{Header: x.header()}
+		n := r.Intn(5)
+		for j := 0; j < n; j++ {
+			b.Transactions = append(b.Transactions, smallTx(r.Chance(2, 3)))
+		}
+		var w bytes.Buffer
+		b.Serialize(&w)
+		x.emit("blk-seq", true, fmt.Sprintf("C08 blk %s %s %s", ctors[r.Intn(len(ctors))], hx(w.Bytes()), blkOps(n)))
+	}
+	tctors := []string{"new", "bytes", "reader"}
+	for i := 0; i < x.g.N(80, 800); i++ {
+		t := smallTx(r.Bool())
+		var w bytes.Buffer
+		t.Serialize(&w)
+		var ops []string
+		for k := 2 + r.Intn(8); k > 0; k-- {
+			switch r.Intn(6) {
+			case 0:
+				ops = append(ops, "H")
+			case 1:
+				ops = append(ops, "W")
+			case 2:
+				ops = append(ops, "X")
+			case 3:
+				ops = append(ops, "I")
+			case 4:
+				ops = append(ops, "M")
+			case 5:
+				ops = append(ops, fmt.Sprintf("S%d", r.Intn(100000)-1))
+			}
+		}
+		p := w.Bytes()
+		if r.Chance(1, 10) && len(p) > 1 {
+			p = p[:r.Intn(len(p))]
+		}
+		x.emit("utx-seq", true, fmt.Sprintf("C08 utx %s %s %s", tctors[r.Intn(len(tctors))], hx(p), joinOps(ops)))
+	}
+}
+
+func joinOps(ops []string) string {
+	s := ""
+	for i, o := range ops {
+		if i > 0 {
+			s += ","
+		}
+		s += o
+	}
+	return s
 }
